@@ -378,6 +378,47 @@ func c07Cases(tier string, emit func(c c07Case)) {
 			}
 		}
 	}
+	// 7b. CRL issuer names which agree with a chain certificate's subject up to some RDN and then have a SET with
+	//     fewer attributes (down to none), or more, than the certificate's; also against a certificate whose subject
+	//     has an RDN with two attributes
+	for _, id := range []*world.Ident{p.CA, p.Root, p.OtherCA, c07MultiValuedCA()} {
+		var seq pkix.RDNSequence
+		if _, err := asn1.Unmarshal(id.Cert.RawSubject, &seq); err != nil {
+			continue
+		}
+		encode := func(sets [][]pkix.AttributeTypeAndValue) []byte {
+			var rdns []byte
+			for _, set := range sets {
+				var sb []byte
+				for _, a := range set {
+					atv, _ := asn1.Marshal(a)
+					sb = append(sb, atv...)
+				}
+				rdns = append(rdns, append([]byte{0x31, byte(len(sb))}, sb...)...)
+			}
+			return append([]byte{0x30, byte(len(rdns))}, rdns...)
+		}
+		for ri := range seq {
+			for keep := 0; keep <= len(seq[ri])+1; keep++ {
+				if keep == len(seq[ri]) {
+					continue
+				}
+				var sets [][]pkix.AttributeTypeAndValue
+				for rj := range seq {
+					set := append([]pkix.AttributeTypeAndValue{}, seq[rj]...)
+					if rj == ri {
+						if keep < len(set) {
+							set = set[:keep]
+						} else {
+							set = append(set, pkix.AttributeTypeAndValue{Type: []int{2, 5, 4, 11}, Value: "extra"})
+						}
+					}
+					sets = append(sets, set)
+				}
+				emit(c07Case{"issuer", encode(sets), fmt.Sprintf("issuer like %q rdn#%d with %d of %d attributes", id.Cert.Subject.CommonName, ri, keep, len(seq[ri])), false})
+			}
+		}
+	}
 	// deep nesting of context tags for GetGeneralNameType (recursion)
 	for _, depth := range []int{10, 100, 1000, 2000, 5000} {
 		var b []byte
@@ -386,6 +427,18 @@ func c07Cases(tier string, emit func(c c07Case)) {
 		}
 		emit(c07Case{"generalname", b, fmt.Sprintf("generalname nested-context x%d", depth), false})
 	}
+}
+
+// c07MultiValuedCA: a CA whose subject has an RDN with two attributes (OU + CN in one SET)
+func c07MultiValuedCA() *world.Ident {
+	raw, err := asn1.Marshal(pkix.RDNSequence{
+		{{Type: []int{2, 5, 4, 10}, Value: "verif"}},
+		{{Type: []int{2, 5, 4, 11}, Value: "unit"}, {Type: []int{2, 5, 4, 3}, Value: "multi valued CA"}},
+	})
+	if err != nil {
+		panic(err)
+	}
+	return world.Issue(nil, world.CertOpt{CN: "multi valued CA", RawSubject: raw, IsCA: true, KeyKind: "ec", KeyIdx: 4, Serial: big.NewInt(91)})
 }
 
 func rewrap(body string, n int) string {
